@@ -47,31 +47,33 @@ Proof. vm_compute. repeat split. Qed.
 Definition untyped_decl (t k : string) : ty :=
   parse_argument fixed_cfg {| ja_types := [t]; ja_key := k; ja_ast := false; ja_def := false |}.
 Definition int_arg : ty := Ty INT "Integer" VInt64 None "" "" "" [] no_flags "" "" "" [] [] [].
-Definition accepts_decl (ds : list targ) (k : nat) : bool :=
+Definition accepts_decl (V : args_variant) (ds : list targ) (k : nat) : bool :=
   let ptys := map (fun d => untyped_decl (fst d) (snd d)) ds in
   let names := map (fun ip => if is_keyvalue_type (snd ip) then t_key (snd ip) else "p" +++ String (ascii_of_nat (48 + fst ip)) "")
                    (combine (seq 0 (List.length ptys)) ptys) in
   let t := map (fun np => (strip_star (fst np), if is_keyvalue_type (snd np) then match t_vt (snd np) with Some v => v | None => snd np end else snd np))
                (combine names ptys) in
-  match fst (check_args fixed_args true false names t (repeat int_arg k)) with COk => true | _ => false end.
+  match fst (check_args V true false names t (repeat int_arg k)) with COk => true | _ => false end.
 
-(* REQ(1)|REST()|BLOCK(): the binding takes 1 or more; the declaration rejects 2 and more *)
-Theorem C26_rest_block_refuted :
+(* REQ(1)|REST()|BLOCK(): the binding takes 1 or more; before the repair the trailing `?Block` reserved an argument
+   and the declaration rejected 2 and more (repaired by a fix: commit; the general statement is C26_arity_rest_block) *)
+Theorem C26_rest_block_pinned_refuted :
   let a := {| a_none := false; a_any := false; a_req := 1; a_opt := 0; a_rest := true; a_post := 0; a_block := true |} in
-  accepts (aspec_shape a) 2 = true /\ accepts_decl (infer_arguments a None [] []) 2 = false.
-Proof. vm_compute. split; reflexivity. Qed.
+  accepts (aspec_shape a) 2 = true /\ accepts_decl rest_pinned_args (infer_arguments a None [] []) 2 = false /\
+  map (accepts (aspec_shape a)) (seq 0 6) = map (accepts_decl fixed_args (infer_arguments a None [] [])) (seq 0 6).
+Proof. vm_compute. repeat split; reflexivity. Qed.
 
 (* REQ(1)|OPT(1)|REST()|POST(1): the binding needs 2; the declaration takes 1 and refuses 2 *)
 Theorem C26_opt_post_refuted :
   let a := {| a_none := false; a_any := false; a_req := 1; a_opt := 1; a_rest := true; a_post := 1; a_block := false |} in
-  accepts (aspec_shape a) 1 = false /\ accepts_decl (infer_arguments a None [] []) 1 = true /\
-  accepts (aspec_shape a) 2 = true /\ accepts_decl (infer_arguments a None [] []) 2 = false.
+  accepts (aspec_shape a) 1 = false /\ accepts_decl fixed_args (infer_arguments a None [] []) 1 = true /\
+  accepts (aspec_shape a) 2 = true /\ accepts_decl fixed_args (infer_arguments a None [] []) 2 = false.
 Proof. vm_compute. repeat split; reflexivity. Qed.
 
 (* and REQ|REST|POST without OPT agrees, e.g. *)
 Example C26_rest_post_example :
   let a := {| a_none := false; a_any := false; a_req := 1; a_opt := 0; a_rest := true; a_post := 1; a_block := false |} in
-  map (accepts (aspec_shape a)) (seq 0 6) = map (accepts_decl (infer_arguments a None [] [])) (seq 0 6).
+  map (accepts (aspec_shape a)) (seq 0 6) = map (accepts_decl fixed_args (infer_arguments a None [] [])) (seq 0 6).
 Proof. vm_compute. reflexivity. Qed.
 
 (* with a rest parameter: required ++ [rest] ++ trailing parameters (REQ(n)|REST()|POST(m), or a format `…*`), declared by
@@ -96,4 +98,25 @@ Example C26_arity_rest_example :
   forallb (req_any t) ["p0"] = true /\ forallb (req_any t) ["p2"] = true /\
   map (fun k => match fst (check_args fixed_args true false ["p0"; "*args"; "p2"] t (repeat int_arg k)) with COk => true | _ => false end) (seq 0 5)
   = [false; false; true; true; true].
+Proof. vm_compute. repeat split; reflexivity. Qed.
+
+(* ... and the same followed by parameters that have a default — the `?Block` c2json emits for MRB_ARGS_BLOCK() / `&`:
+   they reserve no argument, REQ(n)|REST()|POST(m)|BLOCK() is accepted exactly from n + m arguments on *)
+Theorem C26_arity_rest_block : forall t star,
+  is_star star = true -> is_dstar star = false ->
+  match tget t (drop1 star) with Some dt => is_builtin dt | None => false end = true -> is_named_darg star = false ->
+  forall P Q D args, forallb (req_any t) P = true -> forallb (req_any t) Q = true -> forallb (opt_def t) D = true ->
+  forallb plain_arg args = true ->
+  (fst (check_args fixed_args true false (P ++ star :: Q ++ D) t args) = COk <-> List.length P + List.length Q <= List.length args).
+Proof. intros t star H1 H2 H3 H4 P Q D args. exact (check_args_rest_defaults t star H1 H2 H3 H4 P Q D args). Qed.
+Print Assumptions C26_arity_rest_block.
+
+Example C26_arity_rest_block_example :
+  let U := untyped_decl "Untyped" "" in
+  let B := untyped_decl "?Block" "" in
+  let R := match t_vt (untyped_decl "Untyped" "*args") with Some v => v | None => U end in
+  let t := [("p0", U); ("args", R); ("p2", B)] in
+  forallb (req_any t) ["p0"] = true /\ forallb (opt_def t) ["p2"] = true /\
+  map (fun k => match fst (check_args fixed_args true false ["p0"; "*args"; "p2"] t (repeat int_arg k)) with COk => true | _ => false end) (seq 0 5)
+  = [false; true; true; true; true].
 Proof. vm_compute. repeat split; reflexivity. Qed.
